@@ -193,6 +193,31 @@ class C17(PropBase):
                     extra_violation = q_truth_violation(g, D, qD, f"compute_c_factor of the district {D} of G_A, A = {A}, from Q[A] = {qA}:")
         except Exception as ex:  # noqa: BLE001
             extra_violation = f"compute_c_factor on a district of G_A raised {type(ex).__name__}"
+        # the same call on an edited graph: same C, T, Q[T] and order, one directed edge more (or less) - the answer has to be that graph's
+        try:
+            import random as _random
+            r2 = _random.Random(repr((g, T, C, topo)))
+            pos = {v: i for i, v in enumerate(topo)}
+            posq = {v: i for i, v in enumerate(topo_q)}     # Q[T] was written under this order: it has to stay valid too
+            have = {tuple(e) for e in g["dir"]}
+            addable = [(u, v) for u in topo for v in topo if pos[u] < pos[v] and posq[u] < posq[v] and (u, v) not in have]
+            if not addable and not have:
+                raise LookupError
+            if addable and (r2.random() < 0.7 or not have):
+                e2 = r2.choice(addable); dir2 = g["dir"] + [list(e2)]
+            else:
+                e2 = r2.choice(sorted(have)); dir2 = [e for e in g["dir"] if tuple(e) != e2]
+            g2 = {"nodes": g["nodes"], "dir": dir2, "bid": g["bid"]}
+            res2 = identify_district_variables(input_variables=frozenset(GG.V(v) for v in C), input_district=frozenset(GG.V(v) for v in T),
+                                               district_probability=qT, graph=GG.to_y0(g2), topo=tv)
+            extra_terms.append(f"CTian {c_graph_off(g2)} {c_list([OFF + v for v in C])} {c_list([OFF + v for v in T])} {GE.c_expr(qT)} "
+                               f"{c_list([OFF + v for v in topo])} {1 if res2 is None else 0} {GE.c_expr(res2) if res2 is not None else 'EOne'}")
+            if extra_violation is None and res2 is not None and len(g2["bid"]) <= 5 and not case["pop"]:
+                extra_violation = q_truth_violation(g2, C, res2, f"identify_district_variables on the edited graph (edge {e2} toggled):")
+        except LookupError:
+            pass          # a graph with two nodes in fixed order and no edge: nothing to edit
+        except Exception as ex:  # noqa: BLE001
+            extra_violation = extra_violation or f"identify_district_variables on the edited graph raised {type(ex).__name__}"
         if exc is not None:
             violation, key = f"identify_district_variables raised {exc} on a valid input", f"C17/crash/{exc}"
         elif len(g["nodes"]) <= 6 and len(g["bid"]) <= 5 and not case["pop"]:
